@@ -298,7 +298,7 @@ PROPERTIES = {
     "C16": {
         "regen": {"groups": ['Index']},
         "technique": REGEN_TECHNIQUE,
-        "level_suffix": regen_note("impl FromStr for Index (through the code points of the text: the CHAR index it computes is proved equal to the BYTE index of the model on well-formed UTF-8), From<ParseIntError> for ParseIndexError, Index::for_len, for_len_incl, for_len_unchecked (src/index.rs; str::parse::<usize> is the hand-written parse_usize)"),
+        "level_suffix": regen_note("impl FromStr for Index (through the code points of the text: the CHAR index it computes is proved equal to the BYTE index of the model on well-formed UTF-8), From<ParseIntError> for ParseIndexError, Index::for_len, for_len_incl, for_len_unchecked (src/index.rs; std's str::parse::<usize> is the primitive prim_parse_usize of GenTreePrelude.v, faithful to usize::from_str on ARBITRARY text - optional '+', InvalidDigit, overflow detected left to right - and proved equal to the model's parse_usize on the digit strings Index::from_str hands it)"),
         "runs": [{"suite": "index", "profile": "debug"}, {"suite": "index", "profile": "release"}],
         "level_text": "Proved in Coq for all byte strings and all naturals: index_from_str s = Ok(Num n) iff n <= usize::MAX and s is the canonical decimal spelling of n (bridge to the stdlib's "
                       "N.to_uint / N.of_uint round trip), Ok(Next) iff s = \"-\"; parse after Display and Display after parse are identities; each rejection is characterised by an iff "
